@@ -35,7 +35,10 @@ fn plan(tier: Tier, _seed: u64) -> Plan {
 	}
 }
 
-fn finalize(_t: Tier, _p: &Plan, rep: &mut Report) {
+fn finalize(t: Tier, _p: &Plan, rep: &mut Report) {
+	if matches!(t, Tier::Thorough) && rep.counter("sources_with_more_than_64MiB_in_one_block") == 0 {
+		rep.inconclusive("no versatiles source with more than 64 MiB in one block was exercised");
+	}
 	for k in 0..KINDS {
 		if rep.counter(&format!("pairs_{}", sources::kind_name(k))) == 0 {
 			rep.inconclusive(&format!("no (source, box) pair evaluated for {}", sources::kind_name(k)));
@@ -234,7 +237,14 @@ fn run_case(cx: &CaseCtx, rep: &mut Report) {
 	let kname = sources::kind_name(kind);
 	cx.progress(&format!("build {kname}"));
 	let dir = cx.fresh_dir("c02");
+	// thorough: a few versatiles sources whose single block exceeds the reader's 64 MiB chunk limit
+	let huge = matches!(cx.tier, Tier::Thorough) && kind % 5 == 0 && kind < 10 && (cx.case / KINDS as u64) % 20 == 7;
+	sources::FORCE_HUGE.store(huge, std::sync::atomic::Ordering::SeqCst);
 	let built = guard::catch(|| sources::build_source(&mut rng, kind, &dir, cx.tier.pick(500, 1500)));
+	sources::FORCE_HUGE.store(false, std::sync::atomic::Ordering::SeqCst);
+	if huge {
+		rep.count("sources_with_more_than_64MiB_in_one_block", 1);
+	}
 	let b = match built {
 		Err(p) => {
 			rep.violation(&p.signature(&format!("build-{kname}")), "building / opening the source panicked", json!({"source": kname, "panic": p.describe()}));
